@@ -45,7 +45,7 @@ theorem enter_closure3 (L : Laws3 D) {ps : List Text} {rest : Option Text} {body
       SWF stE ∧ FrameAt stE (st0.sp + nf) ⟨nf, epc, lc, oc, s.bp, st0⟩ ∧
       Ext3 D s.heap σ.store h' σ2.store := by
   obtain ⟨f, cst, cst1, co, p, bcode, ints, caps, a1, a2, a3, a4, a5, a6, a7, a8, a9, a10, a11, a12, a13, a14, a15,
-    a16, a17, a18⟩ := hclos
+    a16, a17, a18, a19⟩ := hclos
   have hld : Spec.Eval.leadingDefs body = ints := leadingDefs_of_F3B a12 a6
   rw [hld] at halloc
   have hndf : (ps ++ rest.toList).Nodup := (List.nodup_append.mp a5).1
@@ -133,7 +133,7 @@ theorem enter_closure3 (L : Laws3 D) {ps : List Text} {rest : Option Text} {body
     obtain ⟨h', a, W', stE, hsE, hwW, hi1, her1, hcx, hwE, hfrE, hext⟩ :=
       enter_core L (loc := fun n => if n < ps.length then σ.store.size + n else σ1.store.size + (n - ps.length))
         (bnd := σ.store.size) (pos := 0) (ρ2 := ρ2) (ρc := ρc) hcal (a3.trans a1) a1 a5 a8 a10 a11 a13 a14 a15 a16
-        a17 a18 (by rw [hpro]; rfl) hi2 hvs2 (by omega) hipL hipO hst hw0 hw hbnd
+        a17 a18 a19 (by rw [hpro]; rfl) hi2 hvs2 (by omega) hipL hipO hst hw0 hw hbnd
         (by intro n hn; show σ.store.size ≤ ite _ _ _; split <;> omega)
         (by
           intro n m hn hm he
@@ -201,7 +201,7 @@ theorem enter_closure3 (L : Laws3 D) {ps : List Text} {rest : Option Text} {body
         (fun j x hj hx => by
           obtain ⟨e, n, l, q1, q2, q3, q4⟩ := a17 j x hj hx
           exact ⟨e, n, l, hs3.ext.envPtr _ _ _ _ q1, q2, q3, hs3.ext.init _ _ q4⟩)
-        (hs3.ext.envOK _ a18) (by rw [hpro]; rfl) hi3 hvs1 (by rw [hlen1]; simp) hipL (by show s.ipO + 1 = 1; omega)
+        (hs3.ext.envOK _ a18) (fun j x hx => hs3.ext.undefOK _ _ a18 (a19 j x hx)) (by rw [hpro]; rfl) hi3 hvs1 (by rw [hlen1]; simp) hipL (by show s.ipO + 1 = 1; omega)
         hlive1 hw0 hswf1 hbnd
         (by
           intro n hn
